@@ -88,6 +88,8 @@ def gen_sched(r: Any, sid: str, kn: dict, start_us: int, horizon_us: int, onesho
         oneshot = r.random() < kn["p_oneshot"]
     if oneshot:
         s["time"] = gen_oneshot_time(r, start_us, horizon_us)
+        if r.random() < kn.get("p_oneshot_offset", 0.15):
+            s["offset"] = gen_offset(r)       # a one-shot that also carries a cron_offset
     else:
         s["cron"] = gen_expr(r, dense=kn["dense_cron"])
         s["offset"] = gen_offset(r)
@@ -130,6 +132,8 @@ def gen_sched_script(rs: int, knobs: Optional[dict] = None) -> dict:
                             ent["invalid_cron"] = True
                     else:
                         ent["time"] = e["time"]
+                        if e.get("offset") is not None:
+                            ent["offset"] = e["offset"]
                     if r.random() < 0.3:
                         ent["labels"] = gen_labels(r)
                     entries.append(ent)
